@@ -125,7 +125,7 @@ def check_exact(ctx, c):
         # next to a datum the interpolant moves with its gradient, |d(weights)/dx| <= |K^-1| |dk/dx| ~ cond / len_scale
         slope = 0.0 if not offset else 1e-9 * np.sqrt(fdim) * 50 * max(1.0, common.maxabs(b.z)) / min(1.0, md["len_scale"]) * max(1.0, cond / 100.0)
         if md["name"] in ("Exponential", "Stable", "Matern", "TPLExponential", "TPLStable", "Linear", "Circular", "Spherical", "HyperSpherical",
-                          "SuperSpherical", "TPLSimple", "TPLGaussian", "Integral") and offset and md["nugget"] == 0.0:
+                          "SuperSpherical", "TPLSimple", "TPLGaussian", "Integral") and offset:
             # non-differentiable at the origin: the field next to a datum moves with (offset/len)^(2H) or linearly
             slope = max(slope, 50 * max(1.0, common.maxabs(b.z)) * (1e-9 / md["len_scale"]) ** 0.2)
         e_raw = common.maxabs(np.asarray(fr) - b.z)
